@@ -534,6 +534,27 @@ func (ev *evalCtx) call(e *Expr) Term {
 	case "bitsof":
 		// bitsof("I"): bit width of an integer type parameter
 		return Term{q("bits:" + ev.strArg(e.Args[0])), "Int", nil}
+	case "atloop":
+		// atloop(N, e): e evaluated in the state at the header of enclosing loop N (this iteration of it)
+		if e.Args[0].Op != "int" {
+			ev.fail("atloop needs a literal loop ordinal")
+		}
+		var li *loopInfo
+		for _, l := range ev.tr.loops {
+			if fmt.Sprint(l.ord) == e.Args[0].Name {
+				li = l
+			}
+		}
+		if li == nil || li.hdrState == nil {
+			ev.fail("atloop(%s): no such enclosing loop state", e.Args[0].Name)
+		}
+		n := *ev
+		n.cur = li.hdrState
+		hdr := li
+		n.names = func(cx *evalCtx, name string) (Term, bool) {
+			return ev.tr.resolveVarAt(name, hdr.header, -1, hdr.hdrState, nil)
+		}
+		return n.eval(e.Args[1])
 	case "heap":
 		// heap("dials.Dials.cbch") : the heap component as an array
 		name := ev.strArg(e.Args[0])
